@@ -12,7 +12,7 @@ open Wntr.Tank Wntr.Controls
 inductive N where
   | simTime | prevSimTime | demand | diameter | mathPi | head | prevHead | tankLevel | elevation   -- attributes read
   | dt | qNet | dV | deltaH | curLevel | v0 | v1 | levelNew | newHead                              -- locals of update_tank_heads
-  | leakDemand | x | y | level | area | vol                                                                     -- _interp_extrapolate / get_volume
+  | leakDemand | x | y | level | area | vol | curValue | threshValue | backtrack | threshLevel | curVol | thrVol | raised                                                                     -- _interp_extrapolate / get_volume
   deriving Repr, DecidableEq, Inhabited
 
 /-- `xp[0]`, `xp[1]`, `xp[-2]`, `xp[-1]` -/
@@ -30,12 +30,15 @@ inductive E where
   | xp (i : Ix) | fp (i : Ix)                    -- breakpoints of the curve passed to `_interp_extrapolate`
   | npInterp (a : E)                             -- `np.interp(a, xp, fp)`
   | lookup (extrap inv : Bool) (a : E)           -- `_interp_extrapolate` / `np.interp` on (level_x, volume_y), `inv`: (volume_y, level_x)
+  | floor (a : E)                                -- `int(math.floor(a))`
+  | vol (a : E)                                  -- `self._source_obj.get_volume(a)`
   deriving Repr, Inhabited
 
 inductive C where
   | curveNone                                    -- `tank.vol_curve is None`
   | eq (a b : E)
   | lenGt1                                       -- `len(xp) > 1`
+  | attrIs (a : Attr)                            -- `self._source_attr == 'head'`
   deriving Repr, Inhabited
 
 inductive S where
@@ -43,6 +46,7 @@ inductive S where
   | assign (v : N) (e : E)
   | seq (a b : S)
   | ite (c : C) (a b : S)
+  | raise                                        -- `raise NotImplementedError(...)` (sets `raised`)
   deriving Repr, Inhabited
 
 def sblock : List S → S
@@ -71,7 +75,8 @@ def ixGet (c : List (Rat × Rat)) : Ix → Rat × Rat
   | .secondLast => match c with | [] => (0, 0) | p :: r => secondLastPair p r
   | .last => match c with | [] => (0, 0) | p :: r => lastPair p r
 
-/-- evaluation; `crv` is the curve as the CALLEE sees it (`xp`, `fp`), `t` the tank (for `lookup` on its volume curve) -/
+/-- evaluation; `crv` is the curve as the CALLEE sees it (`xp`, `fp`), `t` the tank (for `lookup` on its volume curve),
+`attr` the condition's `_source_attr` -/
 def E.eval (t : Tank) (crv : List (Rat × Rat)) (env : Env) : E → Rat
   | .n v => env v
   | .lit q => q
@@ -89,17 +94,21 @@ def E.eval (t : Tank) (crv : List (Rat × Rat)) (env : Env) : E → Rat
     match t.curve with
     | some c => cinterp ex (a.eval t crv env) (if inv then swapPts c else c)
     | none => 0
+  | .floor a => ((a.eval t crv env).floor : Rat)
+  | .vol a => getVolume (env .mathPi) t (a.eval t crv env)
 
-def C.eval (t : Tank) (crv : List (Rat × Rat)) (env : Env) : C → Bool
+def C.eval (t : Tank) (crv : List (Rat × Rat)) (env : Env) (attr : Attr := .level) : C → Bool
   | .curveNone => t.curve.isNone
   | .eq a b => a.eval t crv env == b.eval t crv env
   | .lenGt1 => decide (1 < crv.length)
+  | .attrIs a => attr == a
 
-def S.run (t : Tank) (crv : List (Rat × Rat)) : S → Env → Env
+def S.run (t : Tank) (crv : List (Rat × Rat)) (attr : Attr := .level) : S → Env → Env
   | .skip, env => env
   | .assign v e, env => env.set v (e.eval t crv env)
-  | .seq a b, env => b.run t crv (a.run t crv env)
-  | .ite c a b, env => if c.eval t crv env then a.run t crv env else b.run t crv env
+  | .seq a b, env => b.run t crv attr (a.run t crv attr env)
+  | .ite c a b, env => if c.eval t crv env attr then a.run t crv attr env else b.run t crv attr env
+  | .raise, env => env.set .raised 1
 
 /-! ### the post-solve pass as tokens -/
 
